@@ -351,6 +351,9 @@ class TFLiteSemantic:
         tensors = list(op.get_ifm_ifm2_weights_ofm())
         if op.type in (Op.Concat, Op.ConcatTFLite, Op.Pack):
             tensors += [tens for tens in op.inputs if tens not in tensors]
+        if op.type == Op.UnidirectionalSequenceLstm:
+            # the input and recurrent weights of all four gates and the two state tensors
+            tensors += [tens for tens in op.inputs[1:9] + op.inputs[18:20] if tens not in tensors]
         tensors += op.outputs[1:]
         return [tens for tens in tensors if tens]
 
